@@ -8,7 +8,7 @@ MODES = ['kill', 'kill', 'mem', 'fast', 'fast']
 
 
 def generate(seed, tier='quick', index=0):
-    return dc.generate(PROPERTY, seed, tier, MODES, constraint_share=0.25)
+    return dc.generate(PROPERTY, seed, tier, MODES, constraint_share=0.25, conn_share=0.08)
 
 
 def execute(trace):
